@@ -504,7 +504,7 @@ def run(ctx: Ctx):
         for _ in range(ctx.budget(8, 100)):
             x = sp.gen(ctx.rng)
             entry_both_case(ctx, eng, sp, x)
-    specs = eng.gen_specs(ctx.budget(140, 2000), 3 if ctx.tier == "quick" else 4, user_leaves=True)
+    specs = eng.gen_specs(ctx.budget(140, 2000), 3 if ctx.tier == "quick" else 4, user_leaves=True, tuple_matrix=True)
     # correspondence of full error trees (all modes)
     recs = eng.load_records(specs, suite="load", n_valid=1, n_corrupt=4, n_hostile=1)
     # trail exactness on the corrupted / hostile stream (whatever was reported must be followable)
